@@ -18,6 +18,8 @@ type rtState struct {
 	vl     vlist
 	ids    []string // ids that must be retrievable (set by the caller; nil = every id="…" of the source text)
 	differ bool
+	edit   int // > 0: the parsed model is edited in memory before it is serialised (see editModel)
+	edited int // number of fields editModel changed
 }
 
 var rtMode *rtState
@@ -45,6 +47,13 @@ func roundTrip(text string, a *schema.Definitions, st *rtState) (*schema.Definit
 	if err != nil {
 		st.vl.add("C15/harness", "second parse of the same text failed: %v", err)
 		return nil, nil
+	}
+	if st.edit > 0 {
+		// the model that is serialised need not come from the parser: the same in-memory edit is applied to
+		// the model and to its twin (values the parser itself would never have produced are lost silently
+		// if the reading side normalises them)
+		st.edited = editModel(a, st.edit)
+		editModel(ref, st.edit)
 	}
 	out, err := xml.Marshal(a)
 	if err != nil {
@@ -115,10 +124,94 @@ func idsOfText(text string) []string {
 	return out
 }
 
+// editValues: what an application may put into a model it builds or edits in memory.
+var editValues = []string{" lead", "trail ", "  both  ", "in  side", "tab\there", "é ✓ ü", "<&>\"'", "x", "", "007", " 5", "true "}
+
+// editModel changes free-text fields of the non-executable zoo process "ZZ" (item values and references,
+// task definition attributes, script attributes, called-element attributes, data object bodies, element
+// names): nothing the engine runs. The walk is deterministic, so a model and its twin get the same edit.
+func editModel(defs *schema.Definitions, seed int) int {
+	k, n := seed, 0
+	next := func() string { k++; return editValues[k%len(editValues)] }
+	itemT := reflect.TypeOf(schema.Item{})
+	tdT := reflect.TypeOf(schema.TaskDefinition{})
+	scT := reflect.TypeOf(schema.ExtensionScript{})
+	ceT := reflect.TypeOf(schema.ExtensionCalledElement{})
+	bodyT := reflect.TypeOf(schema.ExtensionDataObjectBody{})
+	seen := map[uintptr]bool{}
+	var walk func(v reflect.Value)
+	walk = func(v reflect.Value) {
+		switch v.Kind() {
+		case reflect.Ptr:
+			if v.IsNil() || seen[v.Pointer()] {
+				return
+			}
+			seen[v.Pointer()] = true
+			walk(v.Elem())
+		case reflect.Interface:
+			if !v.IsNil() {
+				walk(v.Elem())
+			}
+		case reflect.Slice:
+			for i := 0; i < v.Len(); i++ {
+				walk(v.Index(i))
+			}
+		case reflect.Struct:
+			set := func(names ...string) {
+				for _, nm := range names {
+					if f := v.FieldByName(nm); f.IsValid() && f.CanSet() && f.Kind() == reflect.String {
+						f.SetString(next())
+						n++
+					}
+				}
+			}
+			switch v.Type() {
+			case itemT:
+				set("Value", "Ref")
+				return
+			case tdT:
+				set("Type", "Target", "Metadata")
+				return
+			case scT:
+				set("Expression", "Result")
+				return
+			case ceT:
+				set("DefinitionId", "ProcessId")
+				return
+			case bodyT:
+				if f := v.FieldByName("Body"); f.CanSet() {
+					f.SetString("{\"k\": \"" + strings.TrimSpace(next()) + "\"}")
+					n++
+				}
+				return
+			}
+			for i := 0; i < v.NumField(); i++ {
+				f := v.Field(i)
+				if v.Type().Field(i).Name == "NameField" && f.Kind() == reflect.Ptr && f.Type().Elem().Kind() == reflect.String && f.CanSet() {
+					nv := reflect.New(f.Type().Elem())
+					nv.Elem().SetString(next())
+					f.Set(nv)
+					n++
+					continue
+				}
+				walk(f)
+			}
+		}
+	}
+	procs := defs.Processes()
+	for i := range *procs {
+		if id, ok := (*procs)[i].Id(); ok && *id == "ZZ" {
+			walk(reflect.ValueOf(&(*procs)[i]))
+		}
+	}
+	return n
+}
+
 // semDiff compares two models field by field and returns up to max differences (path: what).
-// Whitespace around text is ignored and an absent text payload equals an empty one ("whitespace-only
-// text aside"); nil and empty slices are the same; everything else has to agree, including the
-// dynamic type behind every interface (the formal or informal kind of an expression).
+// Whitespace around text content is ignored and an absent text payload equals an empty one
+// ("whitespace-only text aside"); attribute values and every other string have to agree exactly; nil and
+// empty slices are the same; everything else has to agree, including the dynamic type behind every
+// interface (the formal or informal kind of an expression).
 func semDiff(a, b any, max int) []string {
 	w := &differ{max: max, seen: map[[2]uintptr]bool{}}
 	w.walk("", reflect.ValueOf(a), reflect.ValueOf(b))
@@ -212,7 +305,11 @@ func (w *differ) walk(path string, a, b reflect.Value) {
 			w.walk(fmt.Sprintf("%s[%v]", path, k), a.MapIndex(k), bv)
 		}
 	case reflect.String:
-		if strings.TrimSpace(a.String()) != strings.TrimSpace(b.String()) {
+		if a.Type() == payloadT.Elem() {
+			if strings.TrimSpace(a.String()) != strings.TrimSpace(b.String()) {
+				w.add(path, "%q became %q", a.String(), b.String())
+			}
+		} else if a.String() != b.String() {
 			w.add(path, "%q became %q", a.String(), b.String())
 		}
 	case reflect.Bool:
